@@ -80,7 +80,15 @@ def gen_task(rng, k):
             need.add("(scheme bytevector)")
             steps.append("(let ((b (make-bytevector 16 %d))) (bytevector-u32-set! b 4 shared-name (endianness big)) (list (bytevector-u16-ref b 6 (endianness little)) (bytevector-ieee-double-ref b 8 (endianness big)) (utf8->string (string->utf8 \"k%d\"))))" % (k % 200, k))
     steps.append("(list shared-name (thing-a (make-thing 'done)) (tag 'end))")
+    # import order is drawn, and some libraries are imported late -- by a step of the workload, after the context has registered
+    # record types of its own -- so that contexts differ in what they had loaded when a library initialised itself
     libs = sorted(need) + [l for l in rng.sample(LIBS, rng.range(0, 3)) if l not in need]
+    libs = rng.sample(libs, len(libs))
+    late = [l for l in libs if l in need and rng.chance(1, 3)]
+    if late:
+        libs = [l for l in libs if l not in late]
+        extra_types = " ".join("(define-record-type rt%d (make-rt%d x) rt%d? (x rt%d-x))" % (j, j, j, j) for j in range(rng.range(0, 3)))
+        steps.insert(1, "%s (import %s) 'imported" % (extra_types, " ".join(late)))
     return {"heap": rng.choice([0, 0, 512 * 1024, 1024 * 1024, 8 * 1024 * 1024, 700001, 1000008]), "yield_every": rng.choice([1, 7, 50, 400, 5000]),
             "gc_p1024": rng.choice([0, 1, 4]), "gc_seed": rng.below(1 << 30), "imports": libs, "steps": steps}
 
